@@ -334,11 +334,13 @@ pub fn c18(out: &mut dyn Write, tier: &str, rng: &mut Rng, st: &mut Stats) {
             let maxe = if u { v * v.saturating_sub(1) / 2 } else { v * v.saturating_sub(1) };
             let mut requests: Vec<(Option<usize>, bool)> = (0..=maxe + 2).map(|e| (Some(e), false)).collect();
             requests.push((None, true));
+            // --complete together with an explicit EDGES count: all pairs all the same
+            for e in [0usize, 1, maxe / 2, maxe + 1] { requests.push((Some(e), true)); }
             for (e, complete) in requests {
                 for rep in 0..reps {
                     let dot = rep % 2 == 1;
                     let mut args: Vec<String> = Vec::new();
-                    if complete { args.push("--complete".into()); args.push(v.to_string()); }
+                    if complete { args.push("--complete".into()); args.push(v.to_string()); if let Some(e) = e { args.push(e.to_string()); } }
                     else { args.push(v.to_string()); args.push(e.unwrap().to_string()); }
                     if u { args.push("-u".into()); }
                     if dot { args.push("--dot".into()); }
